@@ -219,6 +219,9 @@ type cluster struct {
 	// rawResultHook sees the bytes of every result file
 	rawResultHook func(n *vnode, rb []byte)
 	crafted       int
+	// airTrace, if set, writes down every key-generation operation a machine handles in the abstract form of
+	// Model/AirDkg.lean (airdkg.go)
+	airTrace *airTrace
 }
 
 var testMnemonics = []string{
@@ -413,6 +416,9 @@ func (c *cluster) answerOp(n *vnode, op *types.Operation) error {
 		n.coldLog = append(n.coldLog, cold)
 		path, err := n.air.ProcessOperation(cold, true)
 		if err != nil {
+			if c.airTrace != nil {
+				c.airTrace.record(c, n, cold, nil, err)
+			}
 			return fmt.Errorf("airgapped: %w", err)
 		}
 		rb, err = os.ReadFile(path)
@@ -420,6 +426,9 @@ func (c *cluster) answerOp(n *vnode, op *types.Operation) error {
 			return err
 		}
 		os.Remove(path)
+		if c.airTrace != nil {
+			c.airTrace.record(c, n, cold, rb, nil)
+		}
 		if c.cacheResults {
 			if c.resultCache == nil {
 				c.resultCache = map[string][]byte{}
